@@ -37,6 +37,8 @@ void vfx___cxa_call_unexpected(uint8_t* p) { VF_FAIL("std::unexpected"); }
 uint8_t __dso_handle;
 #endif
 /* libc leaves used by vstl / oomd */
+static uint32_t vf_errno_cell;
+uint32_t* vfx___errno_location(void) { return &vf_errno_cell; }
 uint64_t vfx_strlen(uint8_t* s) { uint64_t n = 0; while (s[n]) n++; return n; }
 uint32_t vfx_strcmp(uint8_t* a, uint8_t* b) { uint64_t i = 0; while (a[i] && a[i] == b[i]) i++; return (uint32_t)((int)a[i] - (int)b[i]); }
 uint32_t vfx_strncmp(uint8_t* a, uint8_t* b, uint64_t n) { for (uint64_t i = 0; i < n; i++) { if (a[i] != b[i]) return (uint32_t)((int)a[i] - (int)b[i]); if (!a[i]) return 0; } return 0; }
@@ -139,6 +141,17 @@ void vf_clock_advance(uint64_t d) { VF_ASSUME((int64_t)d >= 0 && (int64_t)d < (1
 
 void vf_sleep_ns(uint64_t ns) { if ((int64_t)ns > 0) vf_clock_now += (int64_t)ns; }
 
+/* ------------------------------------------------------------------ threading primitives, sequential model */
+#ifdef VF_GEN
+void vf_mutex_lock(uint32_t* m) { VF_CHECK(*m == 0, "deadlock: locking a mutex this thread already holds"); *m = 1; }
+void vf_mutex_unlock(uint32_t* m) { VF_CHECK(*m == 1, "UB: unlocking a mutex that is not held"); *m = 0; }
+void vf_cv_wait(uint8_t* cv, uint32_t* m) { VF_FAIL("model: condition_variable::wait would block forever in a sequential harness"); }
+void vf_cv_notify(uint8_t* cv, uint32_t all) {}
+void vf_thread_spawn(void (*fn)(uint8_t*), uint8_t* arg) { VF_FAIL("model: std::thread started in a sequential harness"); }
+uint32_t vf_nondet_int(void) { return (uint32_t)vf_nd(9001, 0, 1); }
+uint64_t vf_nondet_u64(void) { return vf_nd(9002, 0, INT64_MAX); }
+#endif
+
 /* ------------------------------------------------------------------ native reporting */
 #ifndef __CPROVER__
 void vf_dump_events(void) { for (int i = 0; i < vf_nat_nev; i++) printf("EV %d %lld %lld %lld %lld\n", vf_nat_evs[i].kind, (long long)vf_nat_evs[i].a, (long long)vf_nat_evs[i].b, (long long)vf_nat_evs[i].c, (long long)vf_nat_evs[i].d); }
@@ -148,6 +161,7 @@ void vf_native_fail(const char* label, int fatal) {
   printf("ASSERT-FAIL: %s\n", label); vf_failed = 1;
   if (fatal) { vf_dump_events(); fflush(stdout); _Exit(3); }
 }
+void vf_check(uint32_t ok, uint8_t* label) { if (!ok) vf_native_fail((const char*)label, 0); }   /* real build: harness-side checks are ordinary calls */
 void vf_native_assume_fail(void) { printf("ASSUME-FAIL\n"); fflush(stdout); _Exit(77); }
 int vf_native_finish(void) { vf_dump_events(); if (vf_exc) printf("PENDING-EXCEPTION\n"); printf("DONE %s\n", vf_failed ? "FAIL" : "OK"); fflush(stdout); return vf_failed ? 3 : 0; }
 #endif
